@@ -321,8 +321,52 @@ class Fn:
     def _cond_edge_list(self):
         return list(self.cond_edges())
 
-    def facts_at(self, b):
+    def facts_at(self, b, _depth=0):
         """all conditional-edge facts that hold on every path reaching block b"""
+        out = self._facts_at_raw(b)
+        if _depth >= 3:
+            return out
+        # a boolean local assigned on several paths (`let ok = a && b;` lowers to `ok = false` on one path and `ok = b` on the
+        # other): knowing its value excludes the paths that stored the opposite constant; if one definition remains, its value
+        # and the facts of its block hold as well
+        extra = []
+        for u, v, (d, val) in out:
+            if not isinstance(val, bool):
+                continue
+            sd = d
+            while sd and sd[0] in ("ref", "deref"):
+                sd = sd[1]
+            if not sd or sd[0] != "var":
+                continue
+            defs = [x for x in self.defs.get(sd[1], []) if len(x[3]) == 1]
+            if len(defs) != len(self.defs.get(sd[1], [])) or not defs:
+                continue
+            rest = []
+            for x in defs:
+                if x[0] == "s" and x[4][0] == "use" and x[4][1][0] == "c" and x[4][1][1] == "bool" and isinstance(x[4][1][2], (bool, int)):
+                    if bool(x[4][1][2]) != val:
+                        continue
+                rest.append(x)
+            if len(rest) != 1:
+                continue
+            x = rest[0]
+            if x[0] == "s":
+                if x[4][0] == "use" and x[4][1][0] == "c":
+                    continue
+                nd = self.desc_rvalue(x[4])
+            elif x[0] == "call":
+                t = x[4]
+                nd = simplify_call(("call", t.get("res") or t.get("fn") or "?", tuple(self.desc_op(a) for a in t["args"]), t.get("fn")))
+            else:
+                continue
+            D = x[1]
+            if D == b:
+                continue
+            extra.append((D, D, (nd, val)))
+            extra.extend(self.facts_at(D, _depth + 1))
+        return out + extra
+
+    def _facts_at_raw(self, b):
         out = []
         for u, v, fact in self._cond_edge_list():
             # several switch values may share one target: then the edge carries a disjunction; skip
@@ -479,6 +523,27 @@ def show(d):
     return k
 
 
+_NEG = {"Lt": "Ge", "Ge": "Lt", "Gt": "Le", "Le": "Gt", "Eq": "Ne", "Ne": "Eq"}
+_MIRROR = {"Gt": "Lt", "Ge": "Le", "Lt": "Gt", "Le": "Ge", "Eq": "Eq", "Ne": "Ne"}
+
+
+def rel_fact(d, val):
+    """canonical form of `comparison == val`: (op, a, b) meaning `a op b` holds, with op in Lt/Le/Eq/Ne (Gt/Ge are mirrored) and,
+    for Eq/Ne, a constant operand on the right; None if d is not a comparison.  `2 >= n` true, `n <= 2` true and `n > 2` false all
+    give (Le, n, 2)."""
+    sd = strip(d)
+    if not (isinstance(sd, tuple) and sd and sd[0] == "bin" and sd[1] in _NEG and isinstance(val, bool)):
+        return None
+    op, a, b = sd[1], sd[2], sd[3]
+    if not val:
+        op = _NEG[op]
+    if op in ("Gt", "Ge"):
+        op, a, b = _MIRROR[op], b, a
+    if op in ("Eq", "Ne") and isinstance(a, tuple) and a and a[0] == "const" and not (isinstance(b, tuple) and b and b[0] == "const"):
+        a, b = b, a
+    return op, a, b
+
+
 def short_path(p):
     return re.sub(r"\b([a-z_][a-z_0-9]*::)+", "", p) if p else "?"
 
@@ -541,6 +606,27 @@ class Program:
 
     def fn(self, path):
         return self.fns.get(path)
+
+    def reaches_call(self, path, pred, depth=2, _seen=None):
+        """does the workspace function `path` call (directly or through workspace functions, to `depth`) a callee for which pred holds"""
+        _seen = _seen if _seen is not None else set()
+        if path in _seen:
+            return False
+        _seen.add(path)
+        f = self.fns.get(path)
+        if f is None:
+            return False
+        hosts = [f] + [c for c in self.fns.values() if c.kind == "Closure" and c.root == path]
+        for h in hosts:
+            for b, t in h.calls():
+                for c in {t.get("res"), t.get("fn")}:
+                    if not c:
+                        continue
+                    if pred(c):
+                        return True
+                    if depth > 0 and c in self.fns and self.reaches_call(c, pred, depth - 1, _seen):
+                        return True
+        return False
 
     def has_crate(self, name):
         return any(u.split(".")[0] == name for u in self.crates)
